@@ -18,6 +18,7 @@ EXPLANATION = (
   "on the same element (tts:position needs the computed extent); (NUL) doc.get_body() is never dereferenced or traversed unguarded; "
   "(ORD-repoint) region references are redirected to the retained region before aliased regions are removed; (LINT-c) the safe-area "
   "range test is satisfiable, i.e. values outside 0..30 are actually rejected."
+  " (STATE-alias / STATE-global) no function of the anchored modules mutates a module- or class-level container, rebinds module / class state or mutates a mutable default argument, so a result never depends on earlier calls;"
 )
 RULE_TEXT = "per live loop, per (target kind, property), per external compute() call, per get_body() use, per range test"
 UNDECIDED = ["the text visible at every time is preserved", "idempotence", "merged regions are equivalent (timing, writing mode, alignment as values)",
